@@ -8,17 +8,25 @@ from forms import vsx, parse, render, canon_nan
 VERIF = R.VERIF
 PROPS = {}
 
+def prop_modules(pid):
+    """the Lean modules that carry a property's obligations: Props/Cxx.lean and, where the property rests on textual facts of the
+    source, Props/CxxTies.lean (a module of its own so that a changed fact breaks only the properties that own it)."""
+    mods = ['CosetProofs.Props.%s' % pid]
+    if os.path.exists(os.path.join(R.LEAN, 'CosetProofs', 'Props', pid + 'Ties.lean')): mods.append('CosetProofs.Props.%sTies' % pid)
+    return mods
+
 def declared_theorems(pid):
-    """theorem names a Props file promises (its `#print axioms` lines)."""
-    p = os.path.join(R.LEAN, 'CosetProofs', 'Props', pid + '.lean')
-    try: s = open(p).read()
-    except FileNotFoundError: return []
-    ns = re.findall(r'^namespace\s+([\w.]+)', s, re.M)
-    prefix = (ns[0] + '.') if ns else ''
+    """theorem names a property's modules promise (their `#print axioms` lines)."""
     out = []
-    for m in re.finditer(r'^#print axioms\s+([\w.\']+)', s, re.M):
-        n = m.group(1)
-        out.append(n if n.startswith('Coset.') else prefix + n)
+    for mod in prop_modules(pid):
+        p = os.path.join(R.LEAN, *mod.split('.')) + '.lean'
+        try: s = open(p).read()
+        except FileNotFoundError: continue
+        ns = re.findall(r'^namespace\s+([\w.]+)', s, re.M)
+        prefix = (ns[0] + '.') if ns else ''
+        for m in re.finditer(r'^#print axioms\s+([\w.\']+)', s, re.M):
+            n = m.group(1)
+            out.append(n if n.startswith('Coset.') else prefix + n)
     return out
 
 class Prop:
@@ -110,7 +118,7 @@ def write_evidence(pid, tier, seed, pr, tstat, ops, impl, wall, nviol, stats=Non
     samples = samples[:8] + [dict(theorem=t, axioms=a) for t, a in list(pr['theorems'].items())[:40]]
     cov = dict(
         obligations=max(1, pr['obligations']), discharged=pr['discharged'],
-        checker_cmd='cd /verif/lean && lake build CosetProofs.Props.%s  (#print axioms audited; thorough: clean rebuild + lake env leanchecker)' % pid,
+        checker_cmd='cd /verif/lean && lake build %s  (#print axioms audited; thorough: clean rebuild + lake env leanchecker)' % ' '.join(prop_modules(pid)),
         trusted_base=['Lean 4.33.0 kernel', 'axioms ⊆ {propext, Classical.choice, Quot.sound}', 'vlib/extract.py (facts regenerated from /repo/src each run)',
                       'correspondence harness (Rust, in-process over /repo working tree) + Lean driver + generators',
                       'hand-written model of ciborium 0.2.2 and of Rust std collections (DESIGN.md §6)'],
